@@ -77,6 +77,12 @@ theorem C02_result_credit (s : State) (res : List (Nat × Int)) (hok : (settle s
     bankAt (settle s res).1.players k = bankAt s.players k + credit s.gidx res k :=
   (C01_settle_local s res hok).2 k hk
 
+/-- `calcLeavePlayers` re-maps the hand's player indexes through the player ids on *every* departure (regenerated from
+table_engine_internal.go) — as `TB.batchRemove` does.  D30 (fixed): it did so only while the table status was a hand
+status; a hand stopped by `PauseTable` / `CloseTable` kept stale entries after a departure (the next departure indexed
+the player list out of range, a settlement would have credited the neighbours). -/
+theorem C02_remap_fact : Facts.leaveRemapGuard = "always: range te.table.State.GamePlayerIndexes" := by decide
+
 /-- **C02 — stable under everything that happens to other players while the hand runs**: a reservation, a batch
 join, a re-buy, an add-on and a join leave the hand's list alone and keep every existing player at his index. -/
 theorem C02_stable (s : State) :
